@@ -427,7 +427,7 @@ def c13(res, tier, seed):
         execs.append({"rules": rules, "scans": scans, "kind": "c13-notready-subsets"})
     # (2) entry-point matrix: same bytes through every entry point; empty and page-aligned buffers
     for si in range(8 if tier == "quick" else 60):
-        rules = random_ruleset(r, r.randint(2, 6), 2, 2, ["M", "NM", "Cnt", "FS", "U8", "T", "Mod", "EP", "EPV", "PeSec"])
+        rules = random_ruleset(r, r.randint(2, 6) if si % 2 else r.randint(10, 20), 2 if si % 2 else r.randint(2, 10), 2, ["M", "NM", "Cnt", "FS", "U8", "T", "Mod", "EP", "EPV", "PeSec"])
         size_kind = r.choice(["empty", "page", "page2", "rand", "pe", "elf"])
         if size_kind == "empty":
             f, data, sizes = sg.make_file(si + 1, "empty", [{"mk": [0, 0], "filler": 0}], False, 2)
@@ -444,12 +444,15 @@ def c13(res, tier, seed):
             if fc["cond"]["k"] == "FS":
                 fc["cond"]["a"] = r.choice([f["size"], f["size"], 0, 1])
         scans = [scan(f, data, sizes, mode=m) for m in ("mem", "file", "fd", "blocks")]
+        # the scanner object is not new when the matrix starts: a scan of other bytes, on which most rules match, comes first
+        f2, d2, s2 = sg.make_file(1000 + si, "pe", [{"mk": [2, 3], "filler": 5, "gap": 1, "exe": "pe"}], True, 2)
+        scans = [scan(f2, d2, s2, mode="mem")] + scans
         execs.append({"rules": rules, "scans": scans, "kind": "c13-entrypoints-scanner"})
         execs.append({"rules": rules, "scans": [scan(f, data, sizes, mode=m) for m in ("mem", "file", "fd")], "kind": "c13-entrypoints-rules", "api": "rules"})
     run_chunks(res, "C13", execs, "asan", "c13", chunk=40)
     res.cov["rule"] = ("(1) random rule sets x files cut into 1-4 blocks x subsets (size <= 3) of the block loop's iterator calls answering "
                        "not-ready, the call repeated until completion, plus not-ready answers inside the re-iteration made by rule evaluation; "
-                       "(2) the same bytes through yr_scanner_scan_mem/file/fd, a single-block iterator and yr_rules_scan_mem/file/fd, incl. "
+                       "(2) the same bytes through yr_scanner_scan_mem/file/fd, a single-block iterator (on a scanner that scanned other bytes before; 2-20 rules, up to 10 namespaces) and yr_rules_scan_mem/file/fd, incl. "
                        "empty and page-aligned buffers; distinct = (rules, file, mode, not-ready subset)")
     res.assumptions += ["yr_*_scan_proc is not exercised (needs ptrace on a live process)",
                         "the iterator repeats a block that was answered not-ready (contract of tests/util.c's test iterator)"]
